@@ -121,7 +121,7 @@ func hostileURL(r *rand.Rand) string {
 	return u
 }
 
-var canonHosts = []string{"example.org:80", "example.org:443", "jane@example.org", "user:pw@example.org", "[2001:db8::ff]", "[2001:db8::ff]:8080", "example.org", "cdn.example.net", "a.b.example", "example.org:8080", "127.0.0.1"}
+var canonHosts = []string{"GitHub.com", "CDN.Example.ORG", "example.org:80", "example.org:443", "jane@example.org", "user:pw@example.org", "[2001:db8::ff]", "[2001:db8::ff]:8080", "example.org", "cdn.example.net", "a.b.example", "example.org:8080", "127.0.0.1"}
 var canonPaths = []string{"/%2Fx", "/a%2Fb", "/%2F%2Fy", "", "/", "/a/b.png", "/a%20b", "/ok/file", "/x_y-z.html", "/a;p=1"}
 var canonQueries = []string{"?a=1&amp;amp;amp;b=2", "?x=&amp;amp;lt;", "", "?a=1", "?a=1&b=2", "?q=x%20y", "?a"}
 var canonFrags = []string{"", "#top", "#a-b"}
